@@ -6,7 +6,7 @@ use crate::kv::*;
 use crate::parser::kverif::any_parser;
 use crate::parser::State;
 use crate::terminal::kverif::*;
-use crate::{kv_cover, kv_end};
+use crate::{kv_assert, kv_cover, kv_end};
 
 fn string_state(k: u8) -> State {
     match k {
@@ -45,13 +45,13 @@ pub(crate) fn t_vt_none(c: TCfg) {
     vt.feed(ch);
     // Terminal::execute is a recorder in this harness: Vt::feed reaches the terminal only through it
     #[cfg(kani)]
-    assert!(unsafe { EXEC_CALLS } == 0, "[C20] control-string payload never reaches the terminal");
+    kv_assert!(unsafe { EXEC_CALLS } == 0, "[C20] control-string payload never reaches the terminal");
     let allow = Allow::default();
     frame(&pre, &vt.terminal, &allow, &tw);
     let post = cell_at(&vt.terminal, w.i, w.c);
-    assert!(Some(post) == e_cell(&e) && Some(mark_at(&vt.terminal, w.i)) == e_mark(&e), "[C20] control-string payload changes no cell");
+    kv_assert!(Some(post) == e_cell(&e) && Some(mark_at(&vt.terminal, w.i)) == e_mark(&e), "[C20] control-string payload changes no cell");
     let r = any_in(0, c.rows - 1);
-    assert!(vt.changes_flag(r) == false, "[C20] control-string payload reports no changed line");
+    kv_assert!(vt.changes_flag(r) == false, "[C20] control-string payload reports no changed line");
     kv_end!();
     let Vt { parser: _, terminal } = vt;
     forget(terminal);
@@ -72,17 +72,17 @@ pub(crate) fn t_vt_query(c: TCfg) {
         terminal,
     };
     let (cols, rows) = vt.size();
-    assert!(cols == c.cols && rows == c.rows, "[C02] size() reports the geometry");
+    kv_assert!(cols == c.cols && rows == c.rows, "[C02] size() reports the geometry");
     let view = vt.view();
     let lines = vt.lines();
-    assert!(view.len() == rows, "[C02] view() has exactly rows lines");
-    assert!(lines.len() >= rows, "[C02] lines() is never shorter than rows");
-    assert!(std::ptr::eq(view.as_ptr(), lines[lines.len() - rows..].as_ptr()), "[C02] view() is the tail of lines()");
+    kv_assert!(view.len() == rows, "[C02] view() has exactly rows lines");
+    kv_assert!(lines.len() >= rows, "[C02] lines() is never shorter than rows");
+    kv_assert!(std::ptr::eq(view.as_ptr(), lines[lines.len() - rows..].as_ptr()), "[C02] view() is the tail of lines()");
     let n = any_in(0, rows - 1);
-    assert!(std::ptr::eq(vt.line(n), &view[n]), "[C02] line(n) is the n-th visible line");
-    assert!(view[n].len() == cols && view[n].cells().len() == cols, "[C02] every line has exactly cols cells");
+    kv_assert!(std::ptr::eq(vt.line(n), &view[n]), "[C02] line(n) is the n-th visible line");
+    kv_assert!(view[n].len() == cols && view[n].cells().len() == cols, "[C02] every line has exactly cols cells");
     let cur = vt.cursor();
-    assert!(cur.row < rows && cur.col <= cols, "[C02] the cursor lies inside the screen (col == cols only when a wrap is pending)");
+    kv_assert!(cur.row < rows && cur.col <= cols, "[C02] the cursor lies inside the screen (col == cols only when a wrap is pending)");
     let _ = vt.cursor_key_app_mode();
     kv_end!();
     let Vt { parser: _, terminal } = vt;
@@ -116,9 +116,9 @@ pub(crate) fn t_vt_glue(cols: usize, rows: usize) {
     let o0 = p2.feed(b0 as char);
     let want_calls = o0.is_some() as u32;
     std::mem::forget(o0);
-    assert!(crate::parser::kverif::same_parser(&vt.parser, &p2), "[C12] a feed_str call leaves the parser exactly where feeding its characters one at a time leaves it (sequences may be cut anywhere)");
+    kv_assert!(crate::parser::kverif::same_parser(&vt.parser, &p2), "[C12] a feed_str call leaves the parser exactly where feeding its characters one at a time leaves it (sequences may be cut anywhere)");
     #[cfg(kani)]
-    assert!(unsafe { EXEC_CALLS } == want_calls, "[C12][C20] the terminal is reached exactly once per function the parser produced");
+    kv_assert!(unsafe { EXEC_CALLS } == want_calls, "[C12][C20] the terminal is reached exactly once per function the parser produced");
     let _ = want_calls;
     kv_cover!(vt.parser.state == State::OscString, "the call ends inside an OSC string");
     kv_cover!(vt.parser.state == State::CsiParam, "the call ends inside CSI parameters");
@@ -146,14 +146,14 @@ pub(crate) fn t_vt_calls() {
     #[cfg(kani)]
     {
         let (n, log) = unsafe { (CALL_N, CALL_LOG) };
-        assert!(n == 3 && log[0] == 1 && log[1] == 2 && log[2] == 3, "[C13][C15][C12] Vt::resize resizes the terminal, collects the changed lines and trims the scrollback, once each");
-        assert!(vt.size() == (cols, rows), "[C02] size() reports the geometry last requested");
+        kv_assert!(n == 3 && log[0] == 1 && log[1] == 2 && log[2] == 3, "[C13][C15][C12] Vt::resize resizes the terminal, collects the changed lines and trims the scrollback, once each");
+        kv_assert!(vt.size() == (cols, rows), "[C02] size() reports the geometry last requested");
     }
     // native replay: the real methods ran; judge the same clause from its observable effects
     #[cfg(not(kani))]
     {
         let ok = vt.size() == (cols, rows) && !dirty_flag(&vt.terminal, 0) && !terminal_trim_pending(&vt.terminal);
-        assert!(ok, "[C13][C15][C12] Vt::resize resizes the terminal, collects the changed lines and trims the scrollback, once each");
+        kv_assert!(ok, "[C13][C15][C12] Vt::resize resizes the terminal, collects the changed lines and trims the scrollback, once each");
     }
     unsafe {
         CALL_N = 0;
@@ -167,12 +167,12 @@ pub(crate) fn t_vt_calls() {
     #[cfg(not(kani))]
     {
         let ok = !dirty_flag(&vt.terminal, 0) && !terminal_trim_pending(&vt.terminal) && vt.view()[0].cells()[0].char() == 'a';
-        assert!(ok, "[C13][C15][C12] Vt::feed_str executes every function, then collects the changed lines and trims the scrollback, once each");
+        kv_assert!(ok, "[C13][C15][C12] Vt::feed_str executes every function, then collects the changed lines and trims the scrollback, once each");
     }
     #[cfg(kani)]
     {
         let (n, log) = unsafe { (CALL_N, CALL_LOG) };
-        assert!(n == 4 && log[0] == 4 && log[1] == 4 && log[2] == 2 && log[3] == 3, "[C13][C15][C12] Vt::feed_str executes every function, then collects the changed lines and trims the scrollback, once each");
+        kv_assert!(n == 4 && log[0] == 4 && log[1] == 4 && log[2] == 2 && log[3] == 3, "[C13][C15][C12] Vt::feed_str executes every function, then collects the changed lines and trims the scrollback, once each");
     }
     unsafe {
         CALL_N = 0;
@@ -181,7 +181,7 @@ pub(crate) fn t_vt_calls() {
     #[cfg(kani)]
     {
         let (n, log) = unsafe { (CALL_N, CALL_LOG) };
-        assert!(n == 1 && log[0] == 4, "[C12] Vt::feed only executes the function");
+        kv_assert!(n == 1 && log[0] == 4, "[C12] Vt::feed only executes the function");
     }
     kv_end!();
     let Vt { parser: _, terminal } = vt;
